@@ -64,6 +64,8 @@ def run(ctx):
         fam = M.rand_family(rng, nsrc=rng.choice([0, 1, 2, 3, 5, 8]) if big else None, nkeys=rng.choice([30, 150]) if big else None,
                             alpha=list(range(256)) if big else None, tokbase=1 + 50 * n if n < 1000 else 1, maxlen=4)
         merge, dupsort = M.MODES[n % 4]
+        if dupsort and n % 2:
+            fam = M.shuffle_tokens(fam, rng)
         if dupsort and not merge:
             fam = M.prefix_related_values(fam, rng)
         failtok = -1
@@ -82,12 +84,67 @@ def run(ctx):
             flush(ctx, allrecs, meta)
             allrecs, meta = [], []
     flush(ctx, allrecs, meta)
+    wide_families(ctx, b)
     merge_tool(ctx, b)
     cov = {"states": ctx.cov.get("states", 0), "transitions": ctx.cov.get("transitions", 0),
            "traces_validated_against_impl": ctx.cov.get("traces_validated_against_impl", 0),
            "evaluations": ctx.cov.get("families", 0), "distinct_nontrivial": ctx.cov.get("families_with_shared_keys", 0), "exhaustive": False}
     return core.finish(ctx, "model_checking", cov, rule="families of 0..8 sources (identical, disjoint, interleaved, with empty tables, empty key) x 4 modes x source variants; "
                        "non-trivial = families in which some key occurs in more than one source entry")
+
+
+def wide_families(ctx, b):
+    """many sources (7..16) whose first keys arrive in every kind of order: the merger's heap is an array, and which
+    slots are compared depends on the number of sources and on the order in which their first entries are inserted.
+    Sources of 1..3 entries, mostly in memory (user-defined sources); thorough: every insertion order of 7 distinct
+    first keys."""
+    import itertools
+    rng = ctx.rng
+    fams = []
+    nrand = 160 if ctx.quick() else 1500
+    for n in range(nrand):
+        nsrc = rng.choice([7, 7, 8, 9, 10, 12, 16])
+        universe = [bytes([0x41 + i]) for i in range(26)] + [bytes([0x61 + i, 0x61 + j]) for i in range(4) for j in range(4)]
+        firsts = rng.sample(universe, nsrc) if rng.random() < 0.8 else [rng.choice(universe[:6]) for _ in range(nsrc)]
+        fam, tok = [], 1
+        for f in firsts:
+            later = sorted(set(k for k in rng.sample(universe, rng.choice([0, 1, 1, 2])) if k > f))
+            src = []
+            for k in [f] + later:
+                src.append((k, [tok])); tok += 1
+            fam.append(src)
+        fams.append(fam)
+    if not ctx.quick():
+        base = [bytes([0x41 + 2 * i]) for i in range(7)]
+        for perm in itertools.permutations(range(7)):
+            fam, tok = [], 1
+            for i in perm:
+                src = [(base[i], [tok]), (base[i] + b"x", [tok + 1])]
+                tok += 2
+                fam.append(src)
+            fams.append(fam)
+    allrecs = []
+    for n, fam in enumerate(fams):
+        merge, dupsort = M.MODES[n % 4] if n < nrand else (0, 0)
+        variant = "user" if (n % 5 or n >= nrand) else rng.choice(["readers", "mixed", "nested"])
+        wd = ctx.sub("wide")
+        L = M.setup_lines(wd, fam, variant, merge, dupsort)
+        L += ["it_iter 1 m:0", "it_drain 1", "it_destroy 1"]
+        if n < nrand and rng.random() < 0.5:
+            keys = sorted(set(k for src in fam for k, _ in src))
+            L += ["it_iter 1 m:0", "it_next 1 %d" % rng.randint(0, 4), "it_seek 1 %s" % shapes.hexs(rng.choice(keys)), "it_drain 1", "it_destroy 1"]
+        L += M.teardown_lines(fam, variant)
+        recs, rc, err = M.run_script(ctx, b, wd, L, "wf")
+        ctx.add("families", 1)
+        ctx.add("wide_families", 1)
+        if rc != 0:
+            core.report(ctx, "driver ended abnormally on a family of %d sources (rc=%s): %s" % (len(fam), rc, err[-1500:]), {"kind": "script", "script": L, "stderr": err[-3000:]})
+            continue
+        allrecs += recs
+        if len(allrecs) > 30000:
+            flush(ctx, allrecs, [])
+            allrecs = []
+    flush(ctx, allrecs, [])
 
 
 def merge_tool(ctx, b):
